@@ -15,6 +15,7 @@ CONSTANTS Branches,     \* git branches, e.g. {"main","rel"} (not "b1": go-git r
           CommitMode,   \* "tree": a commit may install any tree; "atomic": one path changed,
                         \*         a rename, or taking over the other branch's tree
           Ig,           \* ignore configuration [path, sem]
+          RespectIgnore,\* FALSE: delta builds as the code is; TRUE: with the proposed fix
           Emit
 
 \* values for the structured constants (cfg files can only write sets of simple values)
@@ -62,9 +63,9 @@ Reqs == [delta : BOOLEAN, brs : BranchLists, opt : Opts, thr : Thrs]
 
 IndexRun(req) ==
   /\ nr < MaxRuns
-  /\ ix' = Index(Ig, ix, heads, vers, req)
+  /\ ix' = Index(Ig, RespectIgnore, ix, heads, vers, req)
   /\ dev' = IF IsFull(Ig, ix, heads, req) THEN FALSE
-            ELSE dev \/ DeltaIgnoreDeviates(Ig, ix, heads, req)
+            ELSE dev \/ DeltaIgnoreDeviates(Ig, RespectIgnore, ix, heads, req)
   /\ nr' = nr + 1
   /\ hist' = Append(hist, [op |-> "index", delta |-> req.delta, brs |-> req.brs, opt |-> req.opt,
                            thr |-> req.thr])
